@@ -173,3 +173,6 @@ def run(ctx):
                 ctx.ob('CODEC-ID', '%s:%s:%s' % (wname, '+'.join(sorted(S))[:60], c), ok, wf.loc(node),
                        'writer arm %s emits %s; reader maps %s to %s' % (sorted(S), c, c, sorted(rmap[c])) + ('' if ok else ' — the file would re-open as a DIFFERENT encoding'), None)
         ctx.require(n_pairs >= 2, 'CODEC-ID: no comparable arms between %s and %s' % (wname, rnames))
+
+    from rules.C01 import varint_rule
+    varint_rule(ctx, prog)
